@@ -8,6 +8,7 @@ import (
 	"go/token"
 	"go/types"
 	"math/big"
+	"strconv"
 	"strings"
 
 	"golang.org/x/tools/go/ssa"
@@ -731,6 +732,37 @@ func (x *Exec) evalCall(c *EvalCtx, n *SCall) Value {
 		}
 		v := x.eval(c, n.Args[0])
 		return Value{T: boolT, Term: Gt(x.specTerm(c, v), Var("alloc0", SInt))}
+	case "called":
+		// called(F): a call of repository function or method F precedes this point on the path
+		fname := calleeNameArg(n.Args)
+		if fname == "" || len(n.Args) != 1 {
+			panic(c.errf(n, "called expects a function name or Receiver.Method"))
+		}
+		_, ok := c.st.lastCall[fname]
+		if !ok {
+			_, ok = c.st.lastArgs[fname]
+		}
+		return Value{T: boolT, Term: BoolT(ok)}
+	case "lastres", "lastarg":
+		// lastres(F, i) / lastarg(F, i): the i-th result / argument (receiver = 0) of the most recent call of F
+		fname := calleeNameArg(n.Args[:1])
+		if fname == "" || len(n.Args) != 2 {
+			panic(c.errf(n, "%s expects (function, index)", id.Name))
+		}
+		il, ok := n.Args[1].(*SLit)
+		if !ok || il.Kind != "int" {
+			panic(c.errf(n, "%s: the index must be an integer literal", id.Name))
+		}
+		idx, _ := strconv.Atoi(il.Val)
+		tab := c.st.lastCall
+		if id.Name == "lastarg" {
+			tab = c.st.lastArgs
+		}
+		vs, ok := tab[fname]
+		if !ok || idx >= len(vs) || c.atCall {
+			panic(c.errf(n, "unknown identifier %s(%s, %d): no such call precedes this point", id.Name, fname, idx))
+		}
+		return vs[idx]
 	case "lasterr":
 		// lasterr(F): the error (last) result of the most recent call of repository function or method F on this
 		// path. Usable in exit clauses only: a return site that no call of F precedes does not bind the clause.
@@ -860,3 +892,19 @@ func (x *Exec) evalCall(c *EvalCtx, n *SCall) Value {
 
 var _ = constant.MakeBool
 var _ = strings.TrimSpace
+
+// calleeNameArg: `F` or `Receiver.Method` as written in lasterr/lastres/lastarg/called.
+func calleeNameArg(args []SExpr) string {
+	if len(args) < 1 {
+		return ""
+	}
+	switch a := args[0].(type) {
+	case *SIdent:
+		return a.Name
+	case *SSelect:
+		if rid, ok := a.X.(*SIdent); ok {
+			return rid.Name + "." + a.Sel
+		}
+	}
+	return ""
+}
